@@ -14,7 +14,7 @@
                                                             location the stack pointer is not `s0 + k`, if one is found
               |  incomplete <result>                        the analysis returned an error or panicked
               |  ?                                          outside the domain (no entry block, lift declined, a name
-                                                            with two widths)
+                                                            with two widths, SSA versions)
      premise  :  the entry block has no incoming edge (the premise of the completion clause)
      nt       :  the map reports at least two distinct numbers
      strict   :  verdict of the checker in strict mode (an intrinsic that may write the stack pointer gives `top`);
@@ -185,7 +185,7 @@ def judge (f : Function) (sp : String) (w : Nat) (res : List Sx) : String :=
     | some e => if (f.cfg.edgesIn e).isEmpty then "yes" else "no"
     | none => "no"
   let scal := (sp, w) :: (fnScalars f).map (fun s => (s.name, s.bits))
-  if f.cfg.entry.isNone || !widthsOk scal then s!"?\tpremise={premise} nt=0 strict=-"
+  if f.cfg.entry.isNone || !widthsOk scal || (fnScalars f).any (·.ssa.isSome) then s!"?\tpremise={premise} nt=0 strict=-"
   else
     match res with
     | [.atom a] => s!"incomplete {a}\tpremise={premise} nt=0 strict=-"
